@@ -171,12 +171,26 @@ def run(pid, tier, seed, replay=None):
             stats['by_injection'][str(k)] = stats['by_injection'].get(str(k), 0) + 1
         cases.append((terms, rules, strict, kinds))
     script = []
+    earlier = set()
     for i, (terms, rules, strict, kinds) in enumerate(cases):
         gd = {'terms': terms, 'rules': rules}
         tok = [terms[0][1]] if terms and terms[0][1] >= 0 else [0]
-        script.append('\n'.join(['CASE g%d' % i, 'NEW 0', 'SET 0 4 0'] + yvlib.script_read(0, gd, 1 if strict else 0) +
+        # a fifth of the definitions is made on an object that has just been given another grammar (accepted or not):
+        # the verdict must not depend on that
+        before = []
+        if i > 0 and rng.random() < 0.2:
+            pt, pr, ps_, _ = cases[i - 1]
+            before = yvlib.script_read(0, {'terms': pt, 'rules': pr}, 1 if ps_ else 0)
+            earlier.add(i)
+        script.append('\n'.join(['CASE g%d' % i, 'NEW 0', 'SET 0 4 0'] + before + yvlib.script_read(0, gd, 1 if strict else 0) +
                                 ['ERR 0', 'PARSE 0 0 %d %s' % (len(tok), ' '.join(map(str, tok))), 'FREEG 0', 'FREET 0 0', 'END']))
     res = yvlib.run_driver(exe, '\n'.join(script))
+    for i in earlier:
+        ops_ = res[i].get('ops', [])
+        k = [j for j, o in enumerate(ops_) if o.get('op') == 'read']
+        if len(k) >= 2:
+            res[i]['earlier_definition'] = ops_.pop(k[0])
+    stats['after_another_definition'] = len(earlier)
     model = yvlib.run_oracle([encode(t, r, s) for (t, r, s, k) in cases])
     for (terms, rules, strict, kinds), r, m in zip(cases, res, model):
         gd = {'terms': terms, 'rules': rules}
